@@ -618,7 +618,7 @@ func fillLeaves(x gen.Expr, next *int) gen.Expr {
 }
 
 // leafModes: what the leaves of an enumerated tree are.
-var leafModes = []string{"ident", "str", "num", "ident-str", "str-ident", "same-str", "ident-num", "num-ident"}
+var leafModes = []string{"ident", "str", "num", "ident-str", "str-ident", "same-str", "ident-num", "num-ident", "bignum"}
 
 func fillLeavesMode(x gen.Expr, next *int, mode string) gen.Expr {
 	leaf := func() gen.Expr {
@@ -633,6 +633,9 @@ func fillLeavesMode(x gen.Expr, next *int, mode string) gen.Expr {
 			return &gen.Str{Value: "x"}
 		case "num":
 			return &gen.Num{Text: fmt.Sprint(i + 1)}
+		case "bignum":
+			// beyond 2^53: exact in integer arithmetic, not in float64
+			return &gen.Num{Text: []string{"9007199254740992", "1", "9007199254740993", "4503599627370497", "2", "0x20000000000001"}[i%6]}
 		case "ident-str":
 			if i%2 == 1 {
 				return str
@@ -734,7 +737,7 @@ func TestC01Positions(t *testing.T) {
 					if pos == "where" && mode == "ident" {
 						continue // TestC01Exhaustive
 					}
-					if strings.HasPrefix(pos, "let") && mode != "str" && mode != "num" && mode != "same-str" {
+					if strings.HasPrefix(pos, "let") && mode != "str" && mode != "num" && mode != "same-str" && mode != "bignum" {
 						continue
 					}
 					for _, all := range []bool{false, true} {
